@@ -264,10 +264,10 @@ func resolveCheck(c Cell, args []string, ob *observed) (*mon.Result, bool) {
 			return bad("known-hosts", "effective UserKnownHostsFile %q, configured %q", got["userknownhostsfile"], w.kh[c.Srv][c.KH])
 		}
 	}
-	// last, so that it never masks the other fields: a HostName directive for the configured host
-	if first("hostname") != c.host() {
-		return bad("host", "the client would connect to host %q, configured host is %q", first("hostname"), c.host())
-	}
+	// the host is NOT judged: the positional host is an alias to ssh, and mapping it to a HostName is
+	// the core function of the ssh config file the connection is made with (the library pins port
+	// and user with -p / -l, never the host). What ssh resolved is only recorded.
+	ob.ResolvedHost = first("hostname")
 	return nil, true
 }
 
@@ -377,6 +377,8 @@ type observed struct {
 	Argv      []string       `json:"argv,omitempty"`
 	TypedPw   string         `json:"typed_password,omitempty"`
 	SSHBinary string         `json:"ssh_binary,omitempty"`
+	// ResolvedHost is the hostname `ssh -G` reports for the argument list (evidence only, no verdict)
+	ResolvedHost string `json:"resolved_host,omitempty"`
 }
 
 // expect: "connect" | "refuse" | "either". A host certificate whose CA is not listed while the
@@ -933,6 +935,9 @@ func runArgv(c Cell) mon.Result {
 	if c.PortMode != "" {
 		obs["port22_cells"]++
 	}
+	if ob.ResolvedHost != "" && ob.ResolvedHost != c.host() {
+		obs["hostname_taken_from_ssh_config_(not_judged)"]++
+	}
 	if c.Auth == "password" {
 		if ob.TypedPw != u.pw {
 			return viol(c, "c14/argv:password-not-typed-in-channel", ob, "the stand-in asked for the password in the channel and read %q", ob.TypedPw)
@@ -941,6 +946,12 @@ func runArgv(c Cell) mon.Result {
 	}
 	tags := []string{"transport=system(stand-in)", "known_hosts=" + c.KH, "auth=" + c.Auth, fmt.Sprintf("strict=%v", c.Strict),
 		fmt.Sprintf("ssh_config=%v", c.Cfg), "user=" + u.name, fmt.Sprintf("server=%d", c.Srv)}
+	if c.CfgKind != "" {
+		tags = append(tags, "ssh_config_kind="+c.CfgKind)
+	}
+	if ob.ResolvedHost != "" && ob.ResolvedHost != c.host() {
+		tags = append(tags, "hostname_from_ssh_config=observed")
+	}
 	return mon.Result{Verdict: mon.Held, NonTrivial: c.Strict, Obs: obs, Tags: tags,
 		Sample: map[string]interface{}{"cell": "argv/" + c.label(), "argv": sa.Argv, "command_result": ob.Result}}
 }
